@@ -274,3 +274,10 @@ def file_text(p):
         return None
     with open(p, "r", newline="", encoding="ascii") as f:
         return f.read()
+
+
+# ---- exact arithmetic on floats (C14) ------------------------------------------------------------
+def within(x, p, q, a, b):
+    """|x - p/q| <= a/b, evaluated exactly (x: int or float; p, q, a, b integers, q > 0, b > 0)"""
+    from fractions import Fraction
+    return abs(Fraction(x) - Fraction(p, q)) <= Fraction(a, b)
